@@ -166,10 +166,11 @@ struct PairSetup { Pair pair; Shape s1, s2; const ContactTracker* tracker; std::
 void property(const pbt::Tape& t, pbt::Ctx& ctx) {
     pbt::Reader g(t[0]); PairSetup ps; ps.pair = (Pair)g.pick(NPAIR);
     static const int T1[] = {0, 1, 0, 0, 0, 1, 4, 1, 2}, T2[] = {1, 1, 2, 3, 4, 4, 4, 2, 2};
+    const bool fineCase = t[0].size() > 31 && t[0][31] % 48u == 1u; if (fineCase) ps.pair = MESH_MESH;
     const bool implicitPair = ps.pair == SPHERE_ELLIPSOID || ps.pair == ELLIPSOID_ELLIPSOID;
     // 1 case in 48 (word 31 of segment 0; does not shift the meaning of the other words): deep mesh/mesh contact with a finely tessellated mesh
-    const bool fineCase = !t[0].empty() && t[0].size() > 31 && t[0][31] % 48u == 1u; bool fineIsS2 = true; double fineRadius = 1;
-    if (fineCase) { ps.pair = MESH_MESH; pbt::Reader gf(t[0]); gf.skip(1); fineIsS2 = !gf.boolean(); Shape fm = makeFineMesh(gf, fineRadius), cm = makeCoarseMesh(gf, fineRadius); if (fineIsS2) { ps.s1 = cm; ps.s2 = fm; } else { ps.s1 = fm; ps.s2 = cm; } }
+    bool fineIsS2 = true; double fineRadius = 1;
+    if (fineCase) { pbt::Reader gf(t[0]); gf.skip(1); fineIsS2 = !gf.boolean(); Shape fm = makeFineMesh(gf, fineRadius), cm = makeCoarseMesh(gf, fineRadius); if (fineIsS2) { ps.s1 = cm; ps.s2 = fm; } else { ps.s1 = fm; ps.s2 = cm; } }
     else { ps.s1 = makeShape(T1[ps.pair], g, implicitPair ? 4 : 20); ps.s2 = makeShape(T2[ps.pair], g, implicitPair ? 4 : 20); }
     const Shape& S1 = ps.s1; const Shape& S2 = ps.s2;
     switch (ps.pair) {
@@ -189,6 +190,7 @@ void property(const pbt::Tape& t, pbt::Ctx& ctx) {
     bool anyNT = false;
 
     for (size_t ui = 1; ui < t.size(); ++ui) {
+        if (fineCase && ui > 1) break;          // bounded cost: one configuration per fine case
         pbt::Reader r(t[ui]);
         // ---- configuration around touching
         Transform X1 = readX(r, 3 * std::max(1.0, std::min(size, 20.0))); double u[3]; r.unit3(u); double ang = r.angle(); Rotation R12(ang, UnitVec3(u[0], u[1], u[2]));
@@ -196,7 +198,9 @@ void property(const pbt::Tape& t, pbt::Ctx& ctx) {
         double lat1 = r.real(-2, 2), lat2 = r.real(-2, 2); double cutoff = (!meshPair && !implicitPair && r.chance(1, 4)) ? std::pow(10.0, r.uniform(-3, 0)) * size : 0;
         Transform X_12; V3 dir{(LD)d3[0], (LD)d3[1], (LD)d3[2]};          // dir in S1 frame
         if (S1.type == 0) { LD h = S2.support(rotT(toX(Transform(R12, Vec3(0))), V3{1, 0, 0})); X_12 = Transform(R12, Vec3(-(double)h - gap, lat1 * size, lat2 * size)); }
-        else { XF Rr = toX(Transform(R12, Vec3(0))); LD h1 = S1.type == 4 ? S1.support(dir) : S1.support(dir), h2 = S2.support(rotT(Rr, -1.0L * dir)); X_12 = Transform(R12, toD((h1 + h2 + (LD)gap) * dir) + (S1.type == 4 || S2.type == 4 ? 0.15 * size * Vec3(lat1, lat2, 0) : Vec3(0))); }
+        else { XF Rr = toX(Transform(R12, Vec3(0))); LD h1 = S1.type == 4 ? S1.support(dir) : S1.support(dir), h2 = S2.support(rotT(Rr, -1.0L * dir));
+            if (fineCase) { // penetration = 5..85 % of the fine mesh's thickness along the approach direction (half of the cases >= 55 %), no lateral offset
+                LD thick = fineIsS2 ? h2 + S2.support(rotT(Rr, dir)) : h1 + S1.support(-1.0L * dir); pbt::Reader rf(t[ui]); rf.skip(28); double fr = rf.boolean() ? rf.uniform(0.55, 0.85) : rf.uniform(0.05, 0.55); gap = -fr * (double)thick; lat1 = lat2 = 0; far = false; } X_12 = Transform(R12, toD((h1 + h2 + (LD)gap) * dir) + (S1.type == 4 || S2.type == 4 ? 0.15 * size * Vec3(lat1, lat2, 0) : Vec3(0))); }
         Transform X2 = X1 * X_12;
         const XF L1 = toX(X1), L2 = toX(X2), L12 = relX(L1, L2);
         const LD scale = norm(L1.p) + norm(L2.p) + (S1.type == 0 ? 0 : S1.size()) + S2.size(); const LD tol = 1e3 * EPS * scale;
@@ -240,17 +244,29 @@ void property(const pbt::Tape& t, pbt::Ctx& ctx) {
                 if (def) defF2.insert((int)f); if (pos) posF2.insert((int)f); } }
         else if (ps.pair == MESH_MESH) { const LD dl = 1e-9L * scale;
             { std::vector<V3> a1, a2; collectAxes(ContactGeometry::TriangleMesh::getAs(S1.g()).getOBBTreeNode(), a1); collectAxes(ContactGeometry::TriangleMesh::getAs(S2.g()).getOBBTreeNode(), a2);
-              for (auto& a : a1) for (auto& b : a2) if (norm(cross(a, rot(L12, b))) < 1e-7L) obbSite = true; } std::vector<V3> A2(S2.A.size()), B2(S2.A.size()), C2(S2.A.size()); for (size_t f = 0; f < S2.A.size(); ++f) { A2[f] = app(L12, S2.A[f]); B2[f] = app(L12, S2.B[f]); C2[f] = app(L12, S2.C[f]); }
-            std::vector<char> x1(S1.A.size(), 0), x2(S2.A.size(), 0), p1(S1.A.size(), 0), p2(S2.A.size(), 0);
-            for (size_t i = 0; i < S1.A.size(); ++i) { V3 a[3] = {S1.A[i], S1.B[i], S1.C[i]}; V3 ca = (1.0L / 3) * (a[0] + a[1] + a[2]); LD ra = std::max(std::max(norm(a[0] - ca), norm(a[1] - ca)), norm(a[2] - ca));
-                for (size_t j = 0; j < S2.A.size(); ++j) { V3 b[3] = {A2[j], B2[j], C2[j]}; V3 cb = (1.0L / 3) * (b[0] + b[1] + b[2]); LD rb = std::max(std::max(norm(b[0] - cb), norm(b[1] - cb)), norm(b[2] - cb)); if (norm(ca - cb) > ra + rb + dl) continue;
+              for (auto& b : a2) { V3 br = rot(L12, b); for (auto& a : a1) if (norm(cross(a, br)) < 1e-7L) obbSite = true; } }
+            const size_t n1 = S1.A.size(), n2 = S2.A.size();
+            std::vector<V3> V2(S2.VL.size()); for (size_t v = 0; v < V2.size(); ++v) V2[v] = app(L12, S2.VL[v]);     // mesh 2 in the frame of mesh 1
+            std::vector<V3> A2(n2), B2(n2), C2(n2); for (size_t f = 0; f < n2; ++f) { A2[f] = V2[S2.FV[f][0]]; B2[f] = V2[S2.FV[f][1]]; C2[f] = V2[S2.FV[f][2]]; }
+            auto spheres = [](const std::vector<V3>& A, const std::vector<V3>& B, const std::vector<V3>& C, std::vector<V3>& c, std::vector<LD>& r) { c.resize(A.size()); r.resize(A.size());
+                for (size_t f = 0; f < A.size(); ++f) { c[f] = (1.0L / 3) * (A[f] + B[f] + C[f]); r[f] = std::max(std::max(norm(A[f] - c[f]), norm(B[f] - c[f])), norm(C[f] - c[f])); } };
+            std::vector<V3> c1, c2; std::vector<LD> r1, r2; spheres(S1.A, S1.B, S1.C, c1, r1); spheres(A2, B2, C2, c2, r2);
+            // (1) every pair of faces (bounding spheres only as an exact prefilter): definite crossings and possible contacts
+            std::vector<char> x1(n1, 0), x2(n2, 0), p1(n1, 0), p2(n2, 0);
+            for (size_t i = 0; i < n1; ++i) { V3 a[3] = {S1.A[i], S1.B[i], S1.C[i]};
+                for (size_t j = 0; j < n2; ++j) { V3 d = c1[i] - c2[j]; LD rr = r1[i] + r2[j] + dl; if (dot(d, d) > rr * rr) continue; V3 b[3] = {A2[j], B2[j], C2[j]};
                     TT tt = triTri(a, b, dl); if (tt.definite) { x1[i] = x2[j] = 1; } if (tt.dist <= 10 * dl) { p1[i] = p2[j] = 1; } } }
-            // buried faces: all three vertices inside the other mesh and no crossing
-            auto inside = [&](V3 q, const std::vector<V3>& A, const std::vector<V3>& B, const std::vector<V3>& C, LD& dmin) { dmin = 1e4000L; for (size_t f = 0; f < A.size(); ++f) dmin = std::min(dmin, closestPtTri(q, A[f], B[f], C[f]).d); LD w = windingNumber(q, A, B, C); return w > 0.5L; };
-            for (size_t i = 0; i < S1.A.size(); ++i) { if (x1[i]) { defF1.insert((int)i); posF1.insert((int)i); continue; } V3 v[3] = {S1.A[i], S1.B[i], S1.C[i]}; int in = 0, near_ = 0; for (int k = 0; k < 3; ++k) { LD dm; bool b = inside(v[k], A2, B2, C2, dm); if (dm < 100 * dl) near_++; else if (b) in++; }
-                if (in == 3 && !p1[i]) defF1.insert((int)i); if (in > 0 || near_ > 0 || p1[i]) posF1.insert((int)i); }
-            for (size_t j = 0; j < S2.A.size(); ++j) { if (x2[j]) { defF2.insert((int)j); posF2.insert((int)j); continue; } V3 v[3] = {A2[j], B2[j], C2[j]}; int in = 0, near_ = 0; for (int k = 0; k < 3; ++k) { LD dm; bool b = inside(v[k], S1.A, S1.B, S1.C, dm); if (dm < 100 * dl) near_++; else if (b) in++; }
-                if (in == 3 && !p2[j]) defF2.insert((int)j); if (in > 0 || near_ > 0 || p2[j]) posF2.insert((int)j); } }
+            // (2) inside test per VERTEX (generalized winding number; no ray casting, no flood fill), cached: 0 outside, 1 inside, 2 within 100 dl of the other surface
+            auto classify = [&](const std::vector<V3>& Q, const std::vector<V3>& A, const std::vector<V3>& B, const std::vector<V3>& C, const std::vector<V3>& cc, const std::vector<LD>& rc, std::vector<char>& cls) { cls.assign(Q.size(), 0);
+                for (size_t v = 0; v < Q.size(); ++v) { bool nearS = false; for (size_t f = 0; f < A.size() && !nearS; ++f) { V3 d = Q[v] - cc[f]; LD rr = rc[f] + 100 * dl; if (dot(d, d) <= rr * rr && closestPtTri(Q[v], A[f], B[f], C[f]).d < 100 * dl) nearS = true; }
+                    cls[v] = nearS ? 2 : (windingNumber(Q[v], A, B, C) > 0.5L ? 1 : 0); } };
+            std::vector<char> cls1, cls2; classify(S1.VL, A2, B2, C2, c2, r2, cls1); classify(V2, S1.A, S1.B, S1.C, c1, r1, cls2);
+            auto sets = [](const std::vector<std::array<int,3> >& FV, const std::vector<char>& cls, const std::vector<char>& x, const std::vector<char>& p, std::set<int>& def, std::set<int>& pos, int& buried) { buried = 0;
+                for (size_t f = 0; f < FV.size(); ++f) { if (x[f]) { def.insert((int)f); pos.insert((int)f); continue; } int in = 0, nr = 0; for (int k = 0; k < 3; ++k) { char c = cls[FV[f][k]]; if (c == 1) in++; else if (c == 2) nr++; }
+                    if (in == 3 && !p[f]) { def.insert((int)f); buried++; } if (in > 0 || nr > 0 || p[f]) pos.insert((int)f); } };
+            int buried1 = 0, buried2 = 0; sets(S1.FV, cls1, x1, p1, defF1, posF1, buried1); sets(S2.FV, cls2, x2, p2, defF2, posF2, buried2);
+            if (fineCase) { ctx.label("meshmesh:fine(>=2000 faces)"); int bf = fineIsS2 ? buried2 : buried1; ctx.label(bf >= 900 ? "meshmesh:buried>=900" : bf >= 300 ? "meshmesh:buried300-899" : "meshmesh:buried<300"); ctx.label(fineIsS2 ? "meshmesh:fine-is-surface2" : "meshmesh:fine-is-surface1");
+                if (ctx.wantDesc) ctx.desc << "   fine case: reference definite faces " << defF1.size() << "/" << defF2.size() << " (buried " << buried1 << "/" << buried2 << "), possible " << posF1.size() << "/" << posF2.size() << "\n"; } }
         if (obbSite) { if (ctx.known("obb-intersectsbox-parallel-axes")) { obbExcl = true; ctx.label("excluded:obb-parallel-axes"); defF1.clear(); defF2.clear(); } else ctx.label("obb-parallel-axes-site-checked"); }
         // ------------------------------------------------------------------ implicit pairs
         LD sepD = 0; V3 sepN{0, 0, 0};
@@ -413,7 +429,7 @@ pbt::Config config() {
         ctx.desc << "ellipsoids (5,1.32,2.78) and (3.19,0.92,1.30) overlapping by 1.45: reported contact normal differs from the surface-1 normal at the reported contact point by " << dn << ", the point's implicit value is " << f << "\n";
         ctx.check(dn < 1e-6 && std::fabs(f) < 1e-7, "ConvexImplicitPair returns an unconverged contact for a deep overlap: contact normal off the surface normal by " + pbt::str(dn) + ", contact point off the surface (implicit value " + pbt::str(f) + "); refineImplicitPair's convergence result is ignored");
     }});
-    c.requiredLabels = {"pair:halfspace-sphere", "pair:sphere-sphere", "pair:halfspace-ellipsoid", "pair:halfspace-brick", "pair:halfspace-mesh", "pair:sphere-mesh", "pair:mesh-mesh", "pair:sphere-ellipsoid", "pair:ellipsoid-ellipsoid", "overlapping", "separated", "mesh:faces-inside", "metamorphic:swap(tracker)", "metamorphic:swap(subsystem)", "metamorphic:rigid-motion", "cutoff>0"};
+    c.requiredLabels = {"pair:halfspace-sphere", "pair:sphere-sphere", "pair:halfspace-ellipsoid", "pair:halfspace-brick", "pair:halfspace-mesh", "pair:sphere-mesh", "pair:mesh-mesh", "meshmesh:fine(>=2000 faces)", "meshmesh:buried>=900", "pair:sphere-ellipsoid", "pair:ellipsoid-ellipsoid", "overlapping", "separated", "mesh:faces-inside", "metamorphic:swap(tracker)", "metamorphic:swap(subsystem)", "metamorphic:rigid-motion", "cutoff>0"};
     return c;
 }
 } // namespace
